@@ -59,12 +59,24 @@ func init() {
 		if err != nil {
 			return "", err
 		}
+		_, snp, err := ParseFile(repo, "pkg/compress/snappy.go")
+		if err != nil {
+			return "", err
+		}
 		sb.WriteString("\n-- call orders of the methods whose step order the models mirror\n")
 		for _, m := range []struct {
 			f          *ast.File
 			recv, name string
 			lean       string
 		}{
+			{tsd, "", "GetTSDEncoder", "getTSDEncoderCalls"},
+			{tsd, "", "ReleaseTSDEncoder", "releaseTSDEncoderCalls"},
+			{tsd, "", "GetTSDDecoder", "getTSDDecoderCalls"},
+			{tsd, "", "ReleaseTSDDecoder", "releaseTSDDecoderCalls"},
+			{fo, "", "GetFixedOffsetDecoder", "getFixedOffsetDecoderCalls"},
+			{fo, "", "ReleaseFixedOffsetDecoder", "releaseFixedOffsetDecoderCalls"},
+			{snp, "snappyWriter", "Bytes", "snappyWriterBytesCalls"},
+			{snp, "snappyReader", "Uncompress", "snappyReaderUncompressCalls"},
 			{tsd, "TSDEncoder", "Reset", "tsdEncoderResetCalls"},
 			{tsd, "TSDEncoder", "RestWithStartTime", "tsdEncoderRestWithStartTimeCalls"},
 			{tsd, "TSDEncoder", "Bytes", "tsdEncoderBytesCalls"},
